@@ -14,10 +14,6 @@ import (
 	"symx/term"
 )
 
-func (i *interpreter) preemptMem(addr interface{}, write bool) {}
-
-func schedChoice(i *interpreter, n int) int          { return 0 }
-func preemptChoice(i *interpreter, what string) bool { return false }
 
 // ---------- protobuf ----------
 
@@ -308,6 +304,8 @@ func initLibExternals() {
 		},
 		"(*github.com/zond/gotomic.Hash).PutIfMissing": func(fr *frame, a []value) value {
 			fr.i.preempt("gotomic")
+			fr.i.hbAcquire(gotomicKey{ptrArg(a[0])})
+			defer fr.i.hbRelease(gotomicKey{ptrArg(a[0])})
 			m := fr.i.gotomicMap(ptrArg(a[0]))
 			if e := m.find(fr.i, a[1], "gotomic"); e != nil {
 				return false
@@ -317,6 +315,8 @@ func initLibExternals() {
 		},
 		"(*github.com/zond/gotomic.Hash).Put": func(fr *frame, a []value) value {
 			fr.i.preempt("gotomic")
+			fr.i.hbAcquire(gotomicKey{ptrArg(a[0])})
+			defer fr.i.hbRelease(gotomicKey{ptrArg(a[0])})
 			m := fr.i.gotomicMap(ptrArg(a[0]))
 			if e := m.find(fr.i, a[1], "gotomic"); e != nil {
 				old := e.val
@@ -328,6 +328,8 @@ func initLibExternals() {
 		},
 		"(*github.com/zond/gotomic.Hash).Get": func(fr *frame, a []value) value {
 			fr.i.preempt("gotomic")
+			fr.i.hbAcquire(gotomicKey{ptrArg(a[0])})
+			defer fr.i.hbRelease(gotomicKey{ptrArg(a[0])})
 			m := fr.i.gotomicMap(ptrArg(a[0]))
 			if e := m.find(fr.i, a[1], "gotomic"); e != nil {
 				return tuple{e.val, true}
@@ -336,6 +338,8 @@ func initLibExternals() {
 		},
 		"(*github.com/zond/gotomic.Hash).Delete": func(fr *frame, a []value) value {
 			fr.i.preempt("gotomic")
+			fr.i.hbAcquire(gotomicKey{ptrArg(a[0])})
+			defer fr.i.hbRelease(gotomicKey{ptrArg(a[0])})
 			m := fr.i.gotomicMap(ptrArg(a[0]))
 			if e := m.find(fr.i, a[1], "gotomic"); e != nil {
 				v := e.val
